@@ -24,7 +24,8 @@ def main():
         'functions_encoded': ['runtime/dyn_array.c: dyn_array_push_*/pop_*/get_*/set_*/remove_at/clear/reserve/clone/grow, *_struct variants (every element kind)']
                              + (listjobs.FUNCS if listjobs else []) + (e2jobs.C20_FUNCS if e2jobs else []),
         'bounds': {'dyn_array': 'one operation from ANY valid array: capacity %s, length 0..capacity symbolic (incl. the full array that must grow), all contents, index any int64, value any' % ('4' if tier == 'quick' else '1, 4, 8'),
-                   'struct elements': '12-byte structs, capacity 3'},
+                   'struct elements': '12-byte structs, capacity 3',
+                   'generated runtime text': 'string-builder helpers emitted into every generated C file: one append from any valid builder (capacity 8; thorough 1, 8, 16), appended text 0..10 symbolic bytes'},
         'outside': ['runtime/gc.c: its 16384-bucket pointer hash set (multiplicative hashing of symbolic addresses) gave no verdict in 300 s even with 2 objects and 2 steps (attempts/gc_hist.c) - not claimed',
                     'nl_string.c formatting functions (printf family has no solver semantics)', 'allocation failure paths (dyn_array_grow keeps going after a failed realloc)',
                     'operation histories longer than one step are covered inductively: every operation preserves the representation invariant 0<=length<=capacity, data holds capacity elements'],
